@@ -102,8 +102,70 @@ HISTORIES = {
 }
 
 
+def random_history(name):
+    """'random:<seed>': a random history around add_eltorito / rm_eltorito on a random image flavour"""
+    import random
+    seed = int(name.split(':')[1])
+    rnd = random.Random('boot/%d' % seed)
+    kw = rnd.choice([dict(), dict(joliet=3), dict(rock_ridge='1.09'), dict(rock_ridge='1.12', joliet=3), dict(udf='2.60'), dict(udf='2.60', rock_ridge='1.09', joliet=3)])
+    ops = []
+    n = [0]
+
+    def newfile(d=''):
+        n[0] += 1
+        size = rnd.choice([1, 100, 2047, 2048, 2049, 5000, 9000])
+        return ('file', '%s/F%d.;1' % (d, n[0]), size, bytes((i * 3 + n[0]) & 0xff for i in range(size)))
+    dirs = ['']
+    for _ in range(rnd.randint(0, 3)):
+        ops.append(newfile(rnd.choice(dirs)))
+        if rnd.random() < 0.4:
+            n[0] += 1
+            d = '/D%d' % n[0]
+            ops.append(('dir', d, 'd%d' % n[0]))
+            dirs.append(d)
+    bootdir = rnd.choice(dirs)
+    boot = newfile(bootdir)
+    ops.append(boot)
+    k = dict(bootcatfile='%s/BOOT.CAT;1' % bootdir)
+    if 'rock_ridge' in kw:
+        k['rr_bootcatname'] = 'boot.cat'
+    if 'joliet' in kw:
+        k['joliet_bootcatfile'] = '%s/boot.cat' % bootdir.lower()
+    if 'udf' in kw:
+        k['udf_bootcatfile'] = '%s/boot.cat' % bootdir.lower()
+    if rnd.random() < 0.4 and boot[2] >= 64:
+        k['boot_info_table'] = True
+    if rnd.random() < 0.3:
+        k['boot_load_size'] = rnd.choice([1, 4, 8])
+    if rnd.random() < 0.2:
+        k['bootable'] = False
+    if rnd.random() < 0.2:
+        k['boot_load_seg'] = rnd.choice([0x7c0, 0x1000])
+    ops.append(('eltorito', boot[1], k))
+    for _ in range(rnd.randint(0, 4)):
+        r = rnd.random()
+        if r < 0.5:
+            ops.append(newfile(rnd.choice(dirs)))
+        elif r < 0.7:
+            second = newfile(rnd.choice(dirs))
+            ops.append(second)
+            ops.append(('eltorito', second[1], rnd.choice([dict(efi=True), dict(platform_id=2), dict(), dict(platform_id=0xef, boot_load_size=2)])))
+        elif r < 0.85:
+            files = [o for o in ops if o[0] == 'file' and o[1] not in [b[1] for b in ops if b[0] == 'eltorito'] and not any(x[0] == 'rm_file' and x[1] == o[1] for x in ops)]
+            if files:
+                ops.append(('rm_file', rnd.choice(files)[1]))
+        else:
+            ops.append(('rm_eltorito',))
+            break
+    return kw, ops
+
+
+def get_history(name):
+    return random_history(name) if name.startswith('random:') else HISTORIES[name]
+
+
 def run_history(c, name):
-    kw, ops = HISTORIES[name]
+    kw, ops = get_history(name)
     iso = S.new_image(c, **kw)
     st = dict(contents={}, files={}, boots=[], catalog=None, table={}, rr={}, kw=kw)
     for op in ops:
@@ -116,12 +178,18 @@ def run_history(c, name):
                 k['rr_name'] = op[4] if len(op) > 4 else op[1].rsplit('/', 1)[1].split('.')[0].lower()
             if 'joliet' in kw:
                 k['joliet_path'] = op[1].split(';')[0].lower()
+            if 'udf' in kw:
+                k['udf_path'] = op[1].split(';')[0].lower()
             S.call(c, iso, 'add_fp', S.data_file(c, data), op[2], **k)
             st['files'][op[1]] = cid
         elif op[0] == 'dir':
             k = dict(iso_path=op[1])
             if 'rock_ridge' in kw:
                 k['rr_name'] = op[2]
+            if 'joliet' in kw and name.startswith('random:'):
+                k['joliet_path'] = op[1].lower()
+            if 'udf' in kw:
+                k['udf_path'] = op[1].lower()
             S.call(c, iso, 'add_directory', **k)
         elif op[0] == 'eltorito':
             S.call(c, iso, 'add_eltorito', op[1], **op[2])
@@ -134,7 +202,12 @@ def run_history(c, name):
             S.call(c, iso, 'rm_eltorito')
             st['boots'], st['catalog'], st['table'] = [], None, {}
         elif op[0] == 'rm_file':
-            S.call(c, iso, 'rm_file', iso_path=op[1])
+            k = dict(iso_path=op[1])
+            if 'joliet' in kw and name.startswith('random:'):
+                k['joliet_path'] = op[1].split(';')[0].lower()
+            if 'udf' in kw:
+                k['udf_path'] = op[1].split(';')[0].lower()
+            S.call(c, iso, 'rm_file', **k)
             st['files'].pop(op[1])
         elif op[0] == 'rm_link':
             S.call(c, iso, 'rm_hard_link', iso_path=op[1])
